@@ -8,6 +8,7 @@ import (
 	"log"
 	"mime"
 	"net/http"
+	"slices"
 	"strings"
 
 	"github.com/issue9/mux/v9/header"
@@ -177,6 +178,7 @@ func (hs *Hosts) emptyHandlerFunc() {}
 //
 //	/path.html
 func NewPathVersion(param string, version ...string) Matcher {
+	versions := make([]string, len(version)) // 不能修改调用方的 version
 	for i, v := range version {
 		if v == "" {
 			panic("参数 v 不能为空值")
@@ -188,10 +190,10 @@ func NewPathVersion(param string, version ...string) Matcher {
 		if v[len(v)-1] != '/' {
 			v += "/"
 		}
-		version[i] = v
+		versions[i] = v
 	}
 
-	return &pathVersion{paramName: param, versions: version}
+	return &pathVersion{paramName: param, versions: versions}
 }
 
 // NewHeaderVersion 声明匹配报头 Accept 中版本号的 [Matcher] 实现
@@ -211,8 +213,8 @@ func NewHeaderVersion(param, key string, errlog func(error), version ...string) 
 
 	return &headerVersion{
 		paramName: param,
-		acceptKey: key,
-		versions:  version,
+		acceptKey: strings.ToLower(key), // mime.ParseMediaType 返回的参数名称均为小写
+		versions:  slices.Clone(version),
 		errlog:    errlog,
 	}
 }
@@ -229,7 +231,10 @@ func (v *headerVersion) Match(r *http.Request, ctx *types.Context) bool {
 		return false
 	}
 
-	ver := ps[v.acceptKey]
+	ver, found := ps[v.acceptKey]
+	if !found { // 未指定版本号
+		return false
+	}
 	for _, vv := range v.versions {
 		if vv == ver {
 			if v.paramName != "" {
